@@ -15,7 +15,10 @@ pub mod coset { use vstd::prelude::*; #[verifier::external_body] pub struct Cose
     pub struct EndOfFile;
     pub enum CoseError { DecodeFailed(crate::ciborium::de::Error<EndOfFile>), OutOfRangeIntegerValue, Other }
     pub type Result<T, E = CoseError> = core::result::Result<T, E>;
-    impl CoseKey { #[verifier::external_body] pub fn from_cbor_value(v: crate::Value) -> Result<CoseKey> { unimplemented!() } }
+    // AsCborValue::from_cbor_value: a deterministic partial function of the value
+    pub uninterp spec fn spec_cose_key(v: crate::Value) -> Option<CoseKey>;
+    impl CoseKey { #[verifier::external_body] pub fn from_cbor_value(v: crate::Value) -> (r: Result<CoseKey>)
+        ensures match spec_cose_key(v) { Some(k) => r matches Ok(x) && x == k, None => r is Err } { unimplemented!() } }
 }
 pub use coset::CoseKey;
 #[verifier::external_body] pub struct Value { _p: u8 }
@@ -44,14 +47,20 @@ pub mod io_model { use vstd::prelude::*;
     }
 }
 use io_model::{Cursor, Read};
-// ---- ciborium::de::from_reader (trusted model): a successful decode consumes at least one byte of the reader and
-//      leaves a suffix of what was there; the decoded value itself is unconstrained.
+// ---- ciborium::de::from_reader (trusted model): the decoder is a deterministic function of the unread bytes: either they
+//      start with one well-formed item of `n >= 1` bytes that deserialises to a `T` (then exactly those bytes are consumed and
+//      that value is returned) or the call fails.  Which byte strings are well-formed, and what they decode to, is not modelled.
 pub mod ciborium { pub mod de { use vstd::prelude::*; use crate::io_model::Read;
     pub enum Error<T> { Io(T), Syntax(usize) }
+    pub uninterp spec fn spec_cbor_len<T>(s: Seq<u8>) -> Option<int>;
+    pub uninterp spec fn spec_cbor_val<T>(s: Seq<u8>) -> T;
     #[verifier::external_body]
     pub fn from_reader<T, R: Read>(reader: &mut R) -> (r: Result<T, Error<crate::io_model::IoError>>)
-        ensures r is Ok ==> old(reader).rem().len() >= 1 && final(reader).rem().len() < old(reader).rem().len()
-                    && final(reader).rem() == old(reader).rem().subrange(old(reader).rem().len() - final(reader).rem().len(), old(reader).rem().len() as int)
+        ensures match spec_cbor_len::<T>(old(reader).rem()) {
+                    Some(n) => r matches Ok(x) && x == spec_cbor_val::<T>(old(reader).rem()) && 1 <= n <= old(reader).rem().len()
+                                && final(reader).rem() == old(reader).rem().subrange(n, old(reader).rem().len() as int),
+                    None => r is Err,
+                }
     { unimplemented!() }
 } }
 pub assume_specification<T, E> [Option::<Result<T, E>>::transpose] (o: Option<Result<T, E>>) -> (r: Result<Option<T>, E>)
@@ -127,6 +136,20 @@ impl AttestedCredentialData { pub open spec fn v_id(&self) -> Vec<u8> { self.cre
 //@   rule R4d
 //@ extract ad impl AttestedCredentialData#1
 //@   only from_reader
+// a well-formed attested-credential section at the front of `s`: aaguid(16) || be16 length || id || one CBOR item that is a COSE key;
+// its total length
+pub open spec fn spec_acd_len(s: Seq<u8>) -> Option<int> {
+    if s.len() < 18 { None } else {
+        let n = spec_u16_from_be(s.subrange(16, 18)) as int;
+        if s.len() < 18 + n { None } else {
+            let rest = s.subrange(18 + n, s.len() as int);
+            match ciborium::de::spec_cbor_len::<Value>(rest) {
+                Some(k) => if coset::spec_cose_key(ciborium::de::spec_cbor_val::<Value>(rest)) is Some { Some(18 + n + k) } else { None },
+                None => None,
+            }
+        }
+    }
+}
 // the reserved bits of the WebAuthn flags byte are 1 and 5 (0x22); every other bit is a named flag of the real `bitflags!`
 pub proof fn lemma_all_bits() ensures Flags::VX_ALL.bits == 0xddu8, forall|b: u8| (b & !0xddu8 == 0) <==> (b & 0x22u8 == 0)
 {
